@@ -294,13 +294,14 @@ def parse_rvalue(s):
 
 # ----------------------------------------------------------------------------- functions
 class Fn:
-    __slots__ = ('raw', 'name', 'impl_span', 'args', 'ret', 'decl', 'blocks', 'spans', 'key', 'file', 'header', 'cleanup')
+    __slots__ = ('raw', 'name', 'impl_span', 'args', 'ret', 'decl', 'blocks', 'spans', 'key', 'file', 'header', 'cleanup', 'body_span')
 
     def __init__(self, raw, header):
         self.raw, self.header = raw, header
         self.args, self.decl, self.blocks, self.cleanup = [], {}, {}, set()
         self.impl_span = None
         self.key = None
+        self.body_span = None      # span of the return place = span of the fn / closure body
 
 
 _STMT_SKIP = re.compile(r'^(StorageLive|StorageDead|nop|PlaceMention|FakeRead|AscribeUserType|Retag|Coverage|ConstEvalCounter|'
@@ -561,6 +562,8 @@ def _parse_fn(header, body):
         m = re.match(r'\s+let (?:mut )?(_\d+): (.*);$', s)
         if m and cur is None:
             fn.decl[m.group(1)] = m.group(2).strip()
+            if m.group(1) == '_0':
+                fn.body_span = span
             continue
         m = re.match(r'\s+(bb\d+)( \(cleanup\))?: \{$', s)
         if m:
